@@ -110,6 +110,19 @@ func (g *sgen) sValue(s map[string]interface{}, depth int) map[string]interface{
 		if g.p(15) {
 			k = g.pick([]string{"float32", "float64"})
 		}
+		if g.p(8) {
+			// kind limits: the range pre-check of the number validator is the only thing that looks at them
+			switch k {
+			case "uint64", "uint":
+				return gv(k, []interface{}{uint64(9223372036854775808), uint64(18446744073709549568), uint64(9223372036854774784)}[g.rng.Intn(3)])
+			case "int64", "int":
+				return gv(k, []interface{}{int64(9223372036854774784), int64(-9223372036854775808)}[g.rng.Intn(2)])
+			case "uint32":
+				return gv(k, []interface{}{int64(4294967295), int64(2147483648)}[g.rng.Intn(2)])
+			case "int32":
+				return gv(k, []interface{}{int64(2147483647), int64(-2147483648)}[g.rng.Intn(2)])
+			}
+		}
 		return gv(k, []interface{}{0, 1, 2, 3, 4, 6, 7, 10, 100, 101}[g.rng.Intn(10)])
 	case "number":
 		k := g.pick([]string{"float32", "float64", "float64", "int64", "uint8"})
